@@ -538,6 +538,15 @@ def _labels(X, spacing):
     return verde.block_split((X[:, 0], X[:, 1]), spacing=spacing)[1]
 
 
+def _same_object_split_twice(cv, X):
+    """Two split() calls of ONE splitter object (an integer seed, or no shuffling): the same folds both times."""
+    with warnings.catch_warnings():
+        warnings.simplefilter("ignore")
+        first = [np.array(te) for _, te in cv.split(X)]
+        second = [np.array(te) for _, te in cv.split(X)]
+    return len(first) == len(second) and all(np.array_equal(x, y) for x, y in zip(first, second))
+
+
 def _arr(x):
     return [int(x.at(i)) for i in range(int(x.shape[0]))]
 
@@ -610,6 +619,10 @@ class KFoldSplits(Contract):
             out["fallback_warning_only_with_equal_block_counts"] = max(len(set(labels[te])) for te in alltest) - min(len(set(labels[te])) for te in alltest) <= 1
         again, _ = kfold_splits(X, a.spacing, a.n_splits, a.shuffle, a.random_state, a.balance)
         out["reproducible_for_a_fixed_random_state"] = all(np.array_equal(_np(t1), t2) for (_, t1), (_, t2) in zip(splits, again))
+        if isinstance(a.random_state, int) or not a.shuffle:
+            import verde
+
+            out["a_second_split_of_the_same_splitter_gives_the_same_folds"] = _same_object_split_twice(verde.BlockKFold(spacing=a.spacing, n_splits=a.n_splits, shuffle=a.shuffle, random_state=a.random_state, balance=a.balance), X)
         return out
 
 
@@ -671,4 +684,8 @@ class ShuffleSplits(Contract):
         out["each_split_is_the_best_point_balanced_candidate"] = best_ok
         again = shuffle_splits(X, a.spacing, a.n_splits, a.test_size, a.random_state, a.balancing)
         out["reproducible_for_a_fixed_random_state"] = all(np.array_equal(_np(t1), t2) for (_, t1), (_, t2) in zip(r, again))
+        if isinstance(a.random_state, int):
+            import verde
+
+            out["a_second_split_of_the_same_splitter_gives_the_same_splits"] = _same_object_split_twice(verde.BlockShuffleSplit(spacing=a.spacing, n_splits=a.n_splits, test_size=a.test_size, random_state=a.random_state, balancing=a.balancing), X)
         return out
